@@ -54,6 +54,7 @@ namespace vf
       std::string pretty;  // C++ text of the grammar
       void ( *build )( pm::grammar&, registry& );
       std::string alphabet;
+      bool has_action_rule = false;  // the grammar contains action< Family, ... >: actions can fire although the parse starts with nothing<>
       int nslots = 0;
       unsigned nonempty_mask = 0;  // slots that must consume when they succeed (they sit in repetition bodies)
       bool scripted_veto = false;  // grammar has bool actions placed where vetoing is sound
@@ -657,6 +658,11 @@ namespace vf
          if( only_cfg && std::strcmp( only_cfg, cf.name ) != 0 ) {
             continue;
          }
+         if( ge.has_action_rule && !cf.observed && !cf.have_act ) {
+            // plain_control has no match() wrapper, so scripted apply0 actions cannot learn their span there; with an action< >
+            // rule below an enable< > they would fire (and veto / throw) on stale data - a limitation of the harness, not a verdict
+            continue;
+         }
          monitor& m = mon();
          crash().ge = &ge;
          crash().c = &c;
@@ -724,10 +730,7 @@ namespace vf
                   // the default message names the rule: compare with the type as written in the generated source (the expected
                   // text above was produced by the library's own demangle<>(), which would agree with itself)
                   static const std::string prefix = "parse error matching ";
-                  std::string named = got.message.rfind( prefix, 0 ) == 0 ? canonical_type_name( got.message.substr( prefix.size() ) ) : std::string();
-                  for( std::size_t k; ( k = named.find( " , void" ) ) != std::string::npos; ) {
-                     named.erase( k, 7 );  // defaulted template arguments (list< R, S, void >) are printed by the compiler but not written in the source
-                  }
+                  const std::string named = got.message.rfind( prefix, 0 ) == 0 ? canonical_type_name( got.message.substr( prefix.size() ) ) : std::string();
                   if( named != bn.cname ) {
                      vs.push_back( { "C05", "raise-identity:rule-name", "parse_error message '" + got.message + "' does not name the blamed rule " + bn.cname + " (read as: " + named + ")" } );
                   }
